@@ -13,7 +13,7 @@ from vlib.nlp import NLP, close, time_like_vars, random_points
 
 ID = "C15"
 LEVEL = "exploration"
-BUDGET = {"quick": (8, 60), "thorough": (16, 900)}
+BUDGET = {"quick": (8, 60), "thorough": (16, 2500)}
 K = 3
 DENSE = 240
 RULE = ("Generated polynomial constraints (degree 1..2 in scalar states: sums, products, squares, inf_der and inf_inert terms, control and parameter factors; one- and two-sided) declared with "
